@@ -465,6 +465,7 @@ class CodeBuilder:
 
                 filtered_fields.append((fname, alias, ftype))
             if filtered_fields:
+                forbid_extra_keys_lines = CodeLines()
                 if config.forbid_extra_keys:
                     allowed_keys = {f[1] or f[0] for f in filtered_fields}
 
@@ -480,17 +481,20 @@ class CodeBuilder:
 
                     allowed_keys_str = "'" + "', '".join(allowed_keys) + "'"
 
-                    self.add_line("d_keys = set(d.keys())")
-                    self.add_line(
+                    # emitted inside the try block below so that a non-mapping
+                    # argument is reported as ValueError like everywhere else
+                    forbid_extra_keys_lines.append("d_keys = set(d.keys())")
+                    forbid_extra_keys_lines.append(
                         f"forbidden_keys = d_keys - {{{allowed_keys_str}}}"
                     )
-                    with self.indent("if forbidden_keys:"):
-                        self.add_line(
+                    with forbid_extra_keys_lines.indent("if forbidden_keys:"):
+                        forbid_extra_keys_lines.append(
                             "raise ExtraKeysError(forbidden_keys,cls) "
                             "from None"
                         )
 
                 with self.indent("try:"):
+                    self.lines.extend(forbid_extra_keys_lines)
                     for fname, alias, ftype in filtered_fields:
                         self.add_type_modules(ftype)
                         metadata = self.metadatas.get(fname, {})
